@@ -12,7 +12,7 @@ explorer picks; time may be advanced early.
 
 Direct oracle (real code only, from the statement): seqs distinct; every frame received by one thread and
 dispatched exactly once; every call returns the peer's answer to that very request (or a timeout not before
-its deadline), each result published at most once; no state in which no thread can run while data is unread.
+its deadline, and only if no reply to it was dispatched before that deadline), each result published at most once; no state in which no thread can run while data is unread.
 After the peer closes the stream every thread inside a call must terminate (EOFError): none stays parked in
 poll() or on the condition.  A caller that stays blocked after its reply HAS been processed (and the stream is
 still open) is C14's subject (known finding F3) and is counted, not flagged, here.
@@ -96,8 +96,20 @@ CONFIGS = {
     "2c+bg-userclass": dict(clients=[[6], [None]], bg=True, byref="user", callbacks=True),
     "2c+poller-userclass-log": dict(clients=[[None], [7]], pollers=[[0, 1]], byref="user", logger=True),
     "3c-serve-none": dict(clients=[[5], [None], [6]], mute=[2], callbacks=True),
+    # conn.sync_request with a finite sync_request_timeout; the peer never answers client 1, whose call times out while
+    # client 2 issues its request
+    "2c-sync-timeout": dict(clients=[[3], [3]], sync=3, mute=[1], early_tick=True),
+    "3c-sync-timeout+bg": dict(clients=[[2], [4], [4]], sync=4, mute=[1], bg=True, early_tick=True),
     "2c+poller-byref-log-eof": dict(clients=[[5], [None]], pollers=[[0, "ready"]], byref=True, logger=True, eof=True),
 }
+
+def timeout_scripts(n_max):
+    """client 1's sync_request runs into its timeout; after k further steps of client 1 (k = 0..n_max; with every line a
+    scheduling point these are the lines of the timeout path and of whatever it calls) client 2 registers its request,
+    client 1 finishes, client 2 is answered"""
+    return [("2c-sync-timeout", [("block", 1), ("tick",), ("run", 1, "w9"), ("step", 1, k), ("run", 2, "c1"), ("block", 1),
+                                 ("block", 2), ("peer", 1), ("block", 2)]) for k in range(n_max + 1)]
+
 
 # directed schedules with a polling thread as the receiver: the poller holds the receive lock while a caller
 # (no expiry) fails the try-lock and parks on the condition; the poller's poll times out / receives a reply
@@ -182,6 +194,11 @@ class Collector:
             if nontrivial(r):
                 c.signatures.add(trace_key(r))
             case = dict(kind="schedule", config=self.name, case=r.case, choices=[ch for (ch, _o, _c) in r.choices])
+            if r.table_replaced is not None:
+                c.disagreements.append(dict(case=case, impl="guard: conn._request_callbacks was rebound to another object during the "
+                                            "run (at trace index %d)" % r.table_replaced, model=got[:300],
+                                            trace=" ".join(r.sched.trace)[:6000]))
+                continue
             if got != want:
                 c.disagreements.append(dict(case=case, impl=want[:600], model=got[:600], trace=" ".join(r.sched.trace)[:6000]))
                 continue
@@ -219,7 +236,7 @@ def correspondence(ctx):
         for name, script in EOF_SCRIPTS:
             ch = ss.DirectedChooser(script)
             col(ss.run_case(dict(CONFIGS[name]), ch, env))
-        for name, script in POLLER_SCRIPTS:
+        for name, script in POLLER_SCRIPTS + timeout_scripts(3):
             ch = ss.DirectedChooser(script)
             col(ss.run_case(dict(CONFIGS[name]), ch, env))
         col.flush()
@@ -348,6 +365,15 @@ def oracle_search(ctx, corr, broken):
             continue
         if [v for v in ss.c13_violations(run) if v[0] not in known]:
             f = examine(dict(CONFIGS[name]), [c for (c, _o, _c) in run.choices], False)
+            if f:
+                return f
+    for name, script in timeout_scripts(16):      # every line of protocol.py / async_.py a scheduling point
+        try:
+            run = ss.run_case(dict(CONFIGS[name]), ss.DirectedChooser(script), env, park_all=True)
+        except ss.HarnessError:
+            continue
+        if [v for v in ss.c13_violations(run) if v[0] not in known]:
+            f = examine(dict(CONFIGS[name]), [c for (c, _o, _c) in run.choices], True)
             if f:
                 return f
     # 3. boundary corpus and fresh schedules, every line a scheduling point (park_all)
